@@ -148,3 +148,18 @@ package core
 //@   ensures result != nil && result.proto == proto && !result.closed && !result.dialAsynch
 //@   ensures result.reconnMinTime == 100000000 && result.reconnMaxTime == 0 && result.maxRxSize == 1048576
 //@   ensures len(result.dialers) == 0 && len(result.listeners) == 0
+//@
+//@ func (*listener).Listen
+//@   ghost wasClosed = l.closed at call:Lock#1
+//@   ghost wasActive = l.active at call:Lock#1
+//@   ensures wasClosed ==> result == mangos.ErrClosed
+//@   ensures !wasClosed && wasActive ==> result == mangos.ErrAddrInUse
+//@   before call:Listen#1 assert l.active && !held(l.Mutex) && !wasActive && !wasClosed
+//@   before go:serve#1 assert l.active
+//@   ensures isnil(result) ==> spawned("serve")
+//@   ensures !isnil(result) && !wasActive ==> !l.active
+//@
+//@ func (*listener).Close
+//@   ghost wasClosed = l.closed at call:Lock#1
+//@   ensures wasClosed ==> result == mangos.ErrClosed
+//@   before call:Close#1 assert l.closed && !wasClosed && held(l.Mutex)
